@@ -353,6 +353,9 @@ pub struct SyncParams {
     pub late_spawn: bool,
     /// child threads may join earlier children
     pub child_joins: bool,
+    /// `unpark` may target any thread (default: only threads whose sole blocking operation is `park`,
+    /// which keeps the program outside the class of the recorded finding F5a)
+    pub unpark_any: bool,
 }
 
 struct ThState {
@@ -408,6 +411,16 @@ pub fn sync_prog(s: &mut Src, p: &SyncParams) -> Program {
     if kinds.is_empty() {
         kinds.push(6);
     }
+    // "parker" threads only park / unpark (and touch cells / atomics): the only legal unpark targets
+    let mut parker = vec![false; nth];
+    if p.park && !p.unpark_any {
+        for t in 1..nth {
+            parker[t] = s.chance(1, 2);
+        }
+        if !parker.iter().any(|&b| b) {
+            parker[nth - 1] = true;
+        }
+    }
     let mut made = 0;
     let mut guard = 0;
     while made < total && guard < 200 {
@@ -417,7 +430,10 @@ pub fn sync_prog(s: &mut Src, p: &SyncParams) -> Program {
         if th.ops.len() >= 5 {
             continue;
         }
-        let kind = kinds[s.pick(kinds.len())];
+        let mut kind = kinds[s.pick(kinds.len())];
+        if parker[t] && !matches!(kind, 4 | 6 | 7) {
+            kind = 4;
+        }
         match kind {
             0 => {
                 // mutex section step
@@ -525,12 +541,15 @@ pub fn sync_prog(s: &mut Src, p: &SyncParams) -> Program {
                 if s.chance(1, 2) {
                     th.ops.push(Op::Park);
                 } else {
-                    // handles available to t: main (0) and earlier threads
-                    let cands: Vec<usize> = (0..nth).filter(|&u| u != t && (u == 0 || u < t)).collect();
+                    // handles available to t: main (0) and earlier threads; main has every child's
+                    // handle once it has spawned them (all spawns precede main's first unpark)
+                    let cands: Vec<usize> = if p.unpark_any {
+                        (0..nth).filter(|&u| u != t && (t == 0 || u == 0 || u < t)).collect()
+                    } else {
+                        (1..nth).filter(|&u| u != t && parker[u] && (t == 0 || u < t)).collect()
+                    };
                     if cands.is_empty() {
-                        // main unparks children only after spawning them: fixed up below
-                        let u = 1 + s.pick(k);
-                        th.ops.push(Op::Unpark { t: u as u8 });
+                        th.ops.push(Op::Park);
                     } else {
                         let u = cands[s.pick(cands.len())];
                         th.ops.push(Op::Unpark { t: u as u8 });
@@ -606,7 +625,7 @@ pub fn sync_prog(s: &mut Src, p: &SyncParams) -> Program {
     let mut joined = vec![false; nth];
     if p.child_joins {
         for u in 2..nth {
-            if s.chance(1, 4) {
+            if !parker[u] && s.chance(1, 4) {
                 let t = 1 + s.pick(u - 1);
                 if !joined[t] {
                     joined[t] = true;
@@ -626,4 +645,219 @@ pub fn sync_prog(s: &mut Src, p: &SyncParams) -> Program {
     }
     threads[0] = main;
     Program { threads, rx_owner: rx_owner as u8, arc_owner: vec![] }
+}
+
+// ---------------------------------------------------------------------------------
+// hand-over shapes: a non-atomic cell protected by (or handed over through) a primitive
+// ---------------------------------------------------------------------------------
+
+fn spawn_all(threads: &mut Vec<Vec<Op>>, main_pre: Vec<Op>, main_post: Vec<Op>, join: bool) {
+    let n = threads.len();
+    let mut main = main_pre;
+    for t in 1..n {
+        main.push(Op::Spawn { t: t as u8 });
+    }
+    main.extend(std::mem::take(&mut threads[0]));
+    if join {
+        for t in 1..n {
+            main.push(Op::Join { t: t as u8 });
+        }
+    }
+    main.extend(main_post);
+    threads[0] = main;
+}
+
+/// Critical sections around a cell; with probability 1/4 per thread the access is
+/// (wrongly) placed outside the section: negative control by construction.
+pub fn lock_handover(s: &mut Src) -> Program {
+    let k = s.range(2, 3);
+    let use_rw = s.chance(1, 2);
+    let main_takes_part = s.chance(1, 3);
+    let mut threads: Vec<Vec<Op>> = vec![vec![]; k + 1];
+    for t in 0..=k {
+        if t == 0 && !main_takes_part {
+            continue;
+        }
+        let outside = s.chance(1, 4);
+        let write = s.chance(1, 2);
+        let access = if write { Op::CellWrite { c: 0 } } else { Op::CellRead { c: 0 } };
+        let (enter, leave) = if use_rw {
+            if write || s.chance(1, 3) {
+                (Op::Write { r: 0 }, Op::UnlockW { r: 0 })
+            } else {
+                (Op::Read { r: 0 }, Op::UnlockR { r: 0 })
+            }
+        } else {
+            (Op::Lock { m: 0 }, Op::Unlock { m: 0 })
+        };
+        let ops = &mut threads[t];
+        if outside {
+            if s.chance(1, 2) {
+                ops.extend([access, enter, leave]);
+            } else {
+                ops.extend([enter, leave, access]);
+            }
+        } else {
+            ops.push(enter);
+            ops.push(access);
+            if !use_rw && s.chance(1, 3) {
+                ops.push(Op::Incr { m: 0 });
+            }
+            ops.push(leave);
+        }
+    }
+    let join = s.chance(1, 2);
+    let post = if join && s.chance(1, 2) { vec![Op::CellRead { c: 0 }] } else { vec![] };
+    spawn_all(&mut threads, vec![], post, join);
+    Program { threads, rx_owner: 0, arc_owner: vec![] }
+}
+
+/// Classical wait/notify shapes with a cell handed from the notifier to the waiter.
+pub fn wait_shape(s: &mut Src) -> Program {
+    let w = Op::CellWrite { c: 0 };
+    let r = Op::CellRead { c: 0 };
+    let mut threads: Vec<Vec<Op>>;
+    let mut join = s.chance(1, 2);
+    match s.pick(7) {
+        // condvar with predicate; notifier variants
+        0 | 1 => {
+            let nwait = s.range(1, 2);
+            threads = vec![vec![]; nwait + 1];
+            for t in 1..=nwait {
+                threads[t] = vec![Op::Lock { m: 0 }, Op::CvWaitWhileZero { cv: 0, m: 0 }, Op::Unlock { m: 0 }, r.clone()];
+                if s.chance(1, 4) {
+                    // plain wait (no predicate): may miss the notification
+                    threads[t][1] = Op::CvWait { cv: 0, m: 0 };
+                }
+            }
+            let notify = match s.pick(4) {
+                0 => vec![Op::NotifyAll { cv: 0 }],
+                1 => vec![Op::NotifyOne { cv: 0 }],
+                2 => vec![Op::NotifyOne { cv: 0 }, Op::NotifyOne { cv: 0 }],
+                _ => vec![],
+            };
+            let mut m = vec![w.clone(), Op::Lock { m: 0 }, Op::Incr { m: 0 }];
+            if s.chance(1, 2) {
+                m.extend(notify);
+                m.push(Op::Unlock { m: 0 });
+            } else {
+                m.push(Op::Unlock { m: 0 });
+                m.extend(notify);
+            }
+            if s.chance(1, 5) {
+                // write after publishing: race by construction
+                m.push(w.clone());
+            }
+            threads[0] = m;
+        }
+        // park / unpark
+        2 | 3 => {
+            threads = vec![vec![], vec![Op::Park, r.clone()]];
+            if s.chance(1, 4) {
+                threads[1].insert(0, Op::Park);
+            }
+            let mut m = vec![w.clone(), Op::Unpark { t: 1 }];
+            if s.chance(1, 3) {
+                m.push(Op::Unpark { t: 1 });
+            }
+            if s.chance(1, 5) {
+                m.swap(0, 1);
+            }
+            threads[0] = m;
+        }
+        // Notify (one waiter)
+        4 => {
+            threads = vec![vec![], vec![Op::NfWait { n: 0 }, r.clone()]];
+            if s.chance(1, 3) {
+                threads[1].insert(1, Op::NfWait { n: 0 });
+            }
+            let mut m = vec![w.clone(), Op::NfNotify { n: 0 }];
+            if s.chance(1, 3) {
+                m.push(Op::NfNotify { n: 0 });
+            }
+            threads[0] = m;
+        }
+        // join chains
+        5 => {
+            join = false;
+            threads = vec![vec![], vec![w.clone()], vec![Op::Join { t: 1 }, r.clone()]];
+            if s.chance(1, 3) {
+                threads[2].swap(0, 1);
+            }
+            threads[0] = vec![];
+            let mut p = Program { threads, rx_owner: 0, arc_owner: vec![] };
+            let mut main = vec![Op::Spawn { t: 1 }, Op::Spawn { t: 2 }, Op::Join { t: 2 }];
+            if s.chance(1, 2) {
+                main.push(w.clone());
+            }
+            p.threads[0] = main;
+            return p;
+        }
+        // two condvar waiters, notify_one + notify_one / notify_all, no predicate
+        _ => {
+            threads = vec![
+                vec![],
+                vec![Op::Lock { m: 0 }, Op::CvWait { cv: 0, m: 0 }, Op::Get { m: 0 }, Op::Unlock { m: 0 }],
+                vec![Op::Lock { m: 0 }, Op::CvWait { cv: 0, m: 0 }, Op::Get { m: 0 }, Op::Unlock { m: 0 }],
+            ];
+            threads[0] = match s.pick(3) {
+                0 => vec![Op::Lock { m: 0 }, Op::Incr { m: 0 }, Op::NotifyAll { cv: 0 }, Op::Unlock { m: 0 }],
+                1 => vec![Op::NotifyOne { cv: 0 }, Op::Lock { m: 0 }, Op::Incr { m: 0 }, Op::Unlock { m: 0 }, Op::NotifyOne { cv: 0 }],
+                _ => vec![Op::Lock { m: 0 }, Op::Incr { m: 0 }, Op::Unlock { m: 0 }, Op::NotifyOne { cv: 0 }],
+            };
+        }
+    }
+    let post = if join && s.chance(1, 3) { vec![r.clone()] } else { vec![] };
+    spawn_all(&mut threads, vec![], post, join);
+    Program { threads, rx_owner: 0, arc_owner: vec![] }
+}
+
+/// Senders write a cell and then send; the receiver reads the cell after receiving.
+pub fn chan_handover(s: &mut Src) -> Program {
+    let nsend = s.range(1, 2);
+    let rx_in_main = s.chance(1, 2);
+    let n = if rx_in_main { nsend + 1 } else { nsend + 2 };
+    let rx = if rx_in_main { 0 } else { n - 1 };
+    let mut threads: Vec<Vec<Op>> = vec![vec![]; n];
+    let mut msg = 1u8;
+    let mut total = 0;
+    let same_cell = s.chance(1, 3);
+    let mut si = 0u8;
+    for t in 0..n {
+        if t == rx || (t == 0 && !rx_in_main && s.chance(1, 2)) {
+            continue;
+        }
+        let c = if same_cell { 0 } else { si % 2 };
+        si += 1;
+        let cnt = s.range(1, 2);
+        for j in 0..cnt {
+            if j == 0 || s.chance(1, 2) {
+                threads[t].push(Op::CellWrite { c });
+            }
+            threads[t].push(Op::Send { v: msg });
+            msg += 1;
+            total += 1;
+        }
+        if s.chance(1, 6) {
+            // write after the send: race by construction (if the receiver reads it)
+            threads[t].push(Op::CellWrite { c });
+        }
+    }
+    let recvs = match s.pick(4) {
+        0 => total + 1, // one receive too many: deadlock
+        1 if total > 1 => total - 1,
+        _ => total,
+    };
+    for i in 0..recvs {
+        threads[rx].push(Op::Recv);
+        if i + 1 == recvs || s.chance(1, 2) {
+            threads[rx].push(Op::CellRead { c: 0 });
+            if !same_cell && s.chance(1, 2) {
+                threads[rx].push(Op::CellRead { c: 1 });
+            }
+        }
+    }
+    let join = s.chance(1, 2);
+    spawn_all(&mut threads, vec![], vec![], join);
+    Program { threads, rx_owner: rx as u8, arc_owner: vec![] }
 }
